@@ -334,7 +334,14 @@ class AbstractDiagram(metaclass=abc.ABCMeta):
         if bundle:
             return bundle
 
-        render = self.__render_fresh({})
+        try:
+            render = self.__render_fresh({})
+        except Exception as err:
+            # fall back to the error image, like ``as_<format>`` does
+            if hasattr(self, "_error") and err is self._error:
+                render = self._render
+            else:
+                render = self.__create_error_image("render", err)
         for mime, conv in formats.items():
             try:
                 chain = list(_walk_converters(conv))
